@@ -38,6 +38,7 @@ type Obligation struct {
 }
 
 type Engine struct {
+	staticBinds  map[*ssa.Function]map[string]int
 	curFrom      []string // proof hint of the assert being generated
 	templateMode bool     // replay: stop after building the entry state and evaluate the ensures over placeholders
 	templateOut  *replayTemplates
@@ -1562,6 +1563,9 @@ func (e *Engine) valuesEqual(st *State, x, y Value) *Term {
 		b := y.(*StrVal)
 		if a.known && b.known {
 			return mkBool(a.s == b.s)
+		}
+		if x, y := strAbs(a), strAbs(b); x != nil && y != nil {
+			return mkEq(x, y) // equality of the abstract values (the abstraction is a function of the contents)
 		}
 		e.fail("comparison of symbolic strings")
 	case *SliceVal:
